@@ -34,6 +34,10 @@ Ev == Trace[l]
 
 Flag(cond, name) == IF cond THEN {} ELSE {name}
 
+\* runs that are stopped from outside mid-run (user cancel, forwarded provider failure): reports of shots in
+\* flight at the stop may be lost (PoolAgg.tla: late)
+StopModes == {"cancel", "provfail"}
+
 \* the abstract sample of a logged report
 Abs(s) == [sec |-> s.sec, ms |-> s.ms, tag |-> s.tag, id |-> s.id, f |-> s.f]
 Expect(s) == IF kind = "phout" THEN PhoutLine(Abs(s), ids) ELSE s
@@ -56,7 +60,7 @@ Report == /\ Ev.ev \in {"Report", "Reports"}
              /\ pending' = AddN(pending, Expect(Ev.s), n)
              /\ nrep' = nrep + n
           /\ bad' = bad \cup Flag(WellFormedSample(Abs(Ev.s)), "DriverSampleOutsideDomain")
-                        \cup Flag(~cancelled \/ mode = "cancel", "DriverReportAfterCancel")
+                        \cup Flag(~cancelled \/ mode \in StopModes, "DriverReportAfterCancel")
           /\ UNCHANGED <<kind, ids, mode, before, nmatched, nwritten, cancelled, closed, ended>>
 
 \* a complete line reached the sink
@@ -88,7 +92,7 @@ SinkClosed == /\ Ev.ev = "SinkClosed"
 
 EngineEnd == /\ Ev.ev = "EngineEnd"
              /\ bad' = bad \cup Flag(~Ev.timeout, "EngineDidNotStop")
-                           \cup Flag(mode = "cancel" \/ Ev.err = "<nil>", "EngineRunFailed")
+                           \cup Flag(mode \in StopModes \/ Ev.err = "<nil>", "EngineRunFailed")
              /\ UNCHANGED <<kind, ids, mode, before, pending, nrep, nmatched, nwritten, cancelled, closed, ended>>
 
 \* Aggregator.Run returned: THE property (Aggregator!CompleteAtReturn on what is observable)
@@ -96,7 +100,7 @@ RunEnd == /\ Ev.ev = "RunEnd"
           /\ ended' = TRUE
           /\ bad' = bad \cup Flag(~Ev.timeout, "RunDidNotReturn")
                         \cup Flag(closed, "NotClosedAtReturn")
-                        \cup (IF mode = "cancel"
+                        \cup (IF mode \in StopModes
                               \* cancelled mid-run: shots in flight may report after the drain (Shutdown.tla: lateLost)
                               THEN Flag(before >= 0 /\ CompleteBetween(nwritten, Ev.dropped, before, nrep),
                                         "ReportsMadeBeforeTheCancelMissing")
